@@ -90,6 +90,7 @@ def extent_bounded(conds, n, ptr=None):
 
 
 def analyse_path(rep, f, p, inst, seen):
+    p = q.sequential_view(p)  # C10 quantifies over inputs, not schedules: re-reading an unmodified sandbox cell yields the same value
     evs = p.events
     entry = site(f)
 
@@ -126,6 +127,7 @@ def analyse_path(rep, f, p, inst, seen):
             rep.violation("R-C10-elem", st, "%s touches %s bytes from %s but the range that was checked is %s bytes" % (
                 what, fmt(n), fmt(ptr), " / ".join(fmt(e) for e in ext)), loc, inst, {"entry": entry})
             return
+        rep.ok("R-C10-elem", entry, "%s: the checked range [start, start+%s-1] is exactly the bytes touched" % (what, fmt(n)), inst)
         ok, why = extent_bounded(conds, good, ptr)
         if not ok:
             est = establishing_event(p, i, ptr)
